@@ -34,6 +34,12 @@ def check_try_from(inst, V, ctx, body, feature, okv):
             if S.is_some(val, okv):
                 p = S.payload(val)
                 want = ('transmute', inst.enum_path, var)
+                # accepted equivalent: a constant variant on the single input that is its discriminant (a safe `match` form)
+                if p[0] == 'agg' and p[1].startswith('adt|' + inst.enum_path + '|') and not p[2]:
+                    dv = inst.by_ident.get(p[1].split('|')[-1], {}).get('value')
+                    if region == [(dv, dv)]:
+                        accept = ivl.union(accept, region)
+                        continue
                 if p != want:
                     ctx.violation('payload', inst, item, 'for n in %s the function returns %s, required %s(transmute(n)): the variant whose discriminant is n' % (ivl.show(region), show(val), okv),
                                   key='%s/payload/%s' % (ctx.prop, item), construct=con)
